@@ -55,6 +55,11 @@ def queries(tier, seed):
                 [it_[1]] * 6, [it_[9], it_[8], it_[9], it_[0]]):
         for w in v['wheres'][:3]:
             qs.append(('plain', {'kind': 'select', 'items': list(lst), 'where': w, 'join': None}))
+    # the documented unpack item (`SELECT *a1.split(':')`, JS `...a1.split(':')`): a list's elements become that many output fields, so records vary in width
+    U = ('unpack', ('split', ('f', 'a', 2), ';'))
+    for lst in ([U], [('f', 'a', 1), U], [U, ('NR',)], [U, U], [('f', 'a', 1), ('unpack', ('list', ('f', 'a', 1), ('f', 'a', 2))), ('f', 'a', 2)], [('star', None), U]):
+        for w in v['wheres'][:3]:
+            qs.append(('plain', {'kind': 'select', 'items': list(lst), 'where': w, 'join': None}))
     # wide rows: two-digit field numbers (a10, a11, a12) in items and EXCEPT lists
     for ex in ([('f', 'a', 3), ('f', 'a', 11)], [('f', 'a', 11), ('f', 'a', 2), ('f', 'a', 10)], [('f', 'a', 12)], [('f', 'a', 1), ('f', 'a', 10, 'a[N]')],
                [('f', 'a', 2), ('f', 'a', 4), ('f', 'a', 6), ('f', 'a', 8)], [('f', 'a', 12), ('f', 'a', 1), ('f', 'a', 7), ('f', 'a', 3), ('f', 'a', 9)]):
